@@ -248,6 +248,23 @@ func defpathDeterminism(ctx *Ctx, w *Worker) {
 		}
 	}
 	ctx.diff(w, "c15.defpath", true, req...)
+	// a process with several out-ports: each port's default name is the one it would have alone (its own port name
+	// and extension), so the names differ
+	ports := [][2]string{{"first", "csv"}, {"second", "tsv"}, {"third", ""}}
+	spec := []string{}
+	alone := []string{}
+	for _, pe := range ports {
+		spec = append(spec, pe[0]+":"+pe[1])
+		alone = append(alone, w.Ask("defpath", "proc", pe[0], pe[1], kvField(ins), kvField(params), kvField(tags)))
+	}
+	for i := 0; i < 8; i++ {
+		got := strings.Split(w.Ask("defpath2", "proc", strings.Join(spec, ","), "", kvField(ins), kvField(params), kvField(tags)), US)
+		if strings.Join(got, US) != strings.Join(alone, US) {
+			ctx.Res.Violate(Violation{What: fmt.Sprintf("default output names of a process with the out-ports %v: %q, each port alone gets %q", spec, got, alone), Class: "c15.defpath-ports", Witness: spec})
+			break
+		}
+	}
+	ctx.Res.Eval("defpath-several-out-ports", true, spec)
 }
 
 func modSuffix(r *Rng) string {
